@@ -158,7 +158,7 @@ fn check_c10(pe: &PointEval, item: u64, acc: &mut Acc) {
     let kap = 1.0 + ex.kappa;
     // (b) shift = L^-1 u
     let unorm: f64 = ex.uvec_abs.iter().flatten().map(|c| qf(c) * qf(c)).sum::<f64>().sqrt();
-    let tol_shift = K * nl as f64 * EPS * kap * ex.inv_frob * unorm;
+    let tol_shift = K * nl as f64 * EPS * kap * ex.inv_frob * unorm + 1e-290;
     for l in 0..nl {
         for k in 0..d {
             let err = qf(&(q(m.shift[l][k]) - &ex.shift[l][k]).abs());
@@ -194,7 +194,7 @@ fn check_c10(pe: &PointEval, item: u64, acc: &mut Acc) {
         acc.count("skipped_ill_conditioned");
     } else {
         let err = qf(&(&s - &rhs).abs());
-        let tol = tol_abs + bv * qf(&rhs.abs());
+        let tol = tol_abs + bv * qf(&rhs.abs()) + 1e-290;
         acc.max("quadratic_form_error_over_tol", err / tol);
         acc.count("quadratic_form_checked");
         if !(err <= tol) {
@@ -244,7 +244,8 @@ fn check_c10(pe: &PointEval, item: u64, acc: &mut Acc) {
                         lhs += &qt[l][lp] * y;
                     }
                     let rhs = pref * m.q[l][k];
-                    let tol = K * EPS * kap * scale + (bv + 8.0 * EPS) * rhs.abs() + K * EPS * kap.sqrt() * rhs.abs();
+                    // (absolute floor: subnormal values carry an absolute, not a relative, rounding error)
+                    let tol = K * EPS * kap * scale + (bv + 8.0 * EPS) * rhs.abs() + K * EPS * kap.sqrt() * rhs.abs() + 1e-290;
                     let err = (qf(&lhs) - rhs).abs();
                     if std::env::var("C10_DEBUG").is_ok() && !(err <= tol) {
                         eprintln!("l={} k={} lhs={:e} rhs={:e} err={:e} tol={:e} scale={:e} kap={:e} bv={:e} pref={:e} q={:e} kcomp={:e} shift_exact={:e} shift_code={:e} qt={:?} lambda={:e} v={:e} Vexact={:e} u_vec={:?} inv={:?}", l, k, qf(&lhs), rhs, err, tol, scale, kap, bv, pref, m.q[l][k], out.k[l][k], qf(&ex.shift[l][k]), m.shift[l][k], m.qt[l], m.lambda, out.v, qf(&ex.v), m.u_vectors.iter().map(|v| v[k]).collect::<Vec<_>>(), m.inv[l]);
